@@ -16,17 +16,27 @@ Proof. destruct a, b; simpl; try (split; congruence).
 Lemma con_eqb_eq a b : con_eqb a b = true <-> a = b.
 Proof. destruct a, b. unfold con_eqb; simpl. rewrite !andb_true_iff, name_eqb_eq, ckind_eqb_eq, names_eqb_eq.
   split; [intros [[-> ->] ->]; auto | inversion 1; auto]. Qed.
+Lemma where_eqb_eq a b : where_eqb a b = true <-> a = b.
+Proof. destruct a as [[t m]|], b as [[t' m']|]; simpl; try (split; congruence).
+  rewrite andb_true_iff, N.eqb_eq, names_eqb_eq. split; [intros [-> ->]; auto | inversion 1; auto]. Qed.
 Lemma index_eqb_eq a b : index_eqb a b = true <-> a = b.
-Proof. destruct a, b. unfold index_eqb; simpl. rewrite !andb_true_iff, name_eqb_eq, names_eqb_eq, Bool.eqb_true_iff.
-  split; [intros [[-> ->] ->]; auto | inversion 1; auto]. Qed.
+Proof. destruct a, b. unfold index_eqb; simpl. rewrite !andb_true_iff, name_eqb_eq, names_eqb_eq, Bool.eqb_true_iff, where_eqb_eq.
+  split; [intros [[[-> ->] ->] ->]; auto | inversion 1; auto]. Qed.
 Lemma subsetb_sound {A} (eqb:A -> A -> bool) (H:forall x y, eqb x y = true <-> x = y) a b :
   subsetb eqb a b = true -> incl a b.
 Proof. unfold subsetb. rewrite forallb_forall. intros Hs x Hx. specialize (Hs x Hx). apply existsb_exists in Hs.
   destruct Hs as [y [Hy E]]. apply H in E. subst; auto. Qed.
 Lemma seteqb_sound {A} (eqb:A -> A -> bool) (H:forall x y, eqb x y = true <-> x = y) a b :
   seteqb eqb a b = true -> set_equiv a b.
-Proof. unfold seteqb, set_equiv. rewrite !andb_true_iff. intros [[H1 H2] _] x.
-  split; apply (subsetb_sound eqb H); auto. Qed.
+Proof. unfold seteqb, set_equiv. rewrite !andb_true_iff. intros [[H1 H2] H3]. split; [|apply Nat.eqb_eq; auto].
+  intros x. split; apply (subsetb_sound eqb H); auto. Qed.
+Lemma subsetb_complete {A} (eqb:A -> A -> bool) (H:forall x y, eqb x y = true <-> x = y) a b :
+  incl a b -> subsetb eqb a b = true.
+Proof. unfold subsetb. intros Hi. apply forallb_forall. intros x Hx. apply existsb_exists. exists x. split; [apply Hi; auto|apply H; auto]. Qed.
+Lemma seteqb_complete {A} (eqb:A -> A -> bool) (H:forall x y, eqb x y = true <-> x = y) a b :
+  set_equiv a b -> seteqb eqb a b = true.
+Proof. unfold seteqb, set_equiv. intros [Hm Hl]. rewrite !andb_true_iff. split; [split|apply Nat.eqb_eq; auto];
+  apply (subsetb_complete eqb H); intros x Hx; apply Hm; auto. Qed.
 Lemma ooname_eqb_eq a b : ooname_eqb a b = true <-> a = b.
 Proof. destruct a, b; simpl; try (split; congruence). rewrite oname_eqb_eq. split; congruence. Qed.
 Lemma desc_eqb_w_sound ad a b : desc_eqb_w ad a b = true -> desc_equiv_w ad a b.
@@ -43,14 +53,20 @@ Proof. unfold desc_eqb, desc_equiv. rewrite !andb_true_iff. intros [[[H1 H2] H3]
   split; [apply (list_eqb_spec col_eqb col_eqb_eq); auto|]. split; [apply names_eqb_eq; auto|].
   split; [apply (seteqb_sound con_eqb con_eqb_eq _ _ H3)|apply (seteqb_sound index_eqb index_eqb_eq _ _ H4)]. Qed.
 
+Lemma desc_eqb_p_sound a b : desc_eqb_p a b = true -> desc_equiv_p a b.
+Proof. unfold desc_eqb_p, desc_equiv_p. rewrite !andb_true_iff. intros [[[H1 H2] H3] H4].
+  split; [apply (seteqb_sound col_eqb col_eqb_eq _ _ H1)|]. split; [apply names_eqb_eq; auto|].
+  split; [apply (seteqb_sound con_eqb con_eqb_eq _ _ H3)|apply (seteqb_sound index_eqb index_eqb_eq _ _ H4)]. Qed.
+
 Theorem decider_sound10 i o : check_C10 i o = true -> C10_holds i o.
 Proof.
-  destruct o as [nd rows tl|e]; cbn [check_C10 C10_holds]; auto.
-  rewrite !andb_true_iff. intros [[[[[[[H1 H2] H3] H4] H5] H6] Hs] H7].
+  unfold check_C10, C10_holds. destruct (j_never i); auto.
+  destruct o as [nd rows tl|e]; cbn [check_C10_r C10_holds_r]; auto.
+  rewrite !andb_true_iff. intros [[[[[[[[[H1 H2] H3] H4] H5] H6] Hs] Hp] Ha] H7].
   split; [destruct tl; auto; discriminate|].
   split; [apply Nat.eqb_eq; auto|].
-  split; [auto|]. split; [apply mseqb_sound; auto|]. split; [auto|]. split; [auto|]. split; [auto|].
-  intros T' HT. rewrite HT in H7. apply desc_eqb_w_sound; auto.
+  split; [auto|]. split; [apply mseqb_sound; auto|]. split; [auto|]. split; [auto|]. split; [auto|]. split; [auto|]. split; [auto|].
+  intros T' HT. rewrite HT in H7. destruct (is_nil (j_partial i)); [apply desc_eqb_w_sound; auto|apply desc_eqb_p_sound; auto].
 Qed.
 
 (* ------------------------------------------------------------------ list facts *)
@@ -108,7 +124,9 @@ Record Inv (s:bstate) (T:tbl) : Prop := mkInv {
   inv_nd : NoDup (map k_name (b_named s));
   (* a column that still carries the primary_key flag is a column of a primary key constraint that is still there *)
   inv_fl : forall k, In k (b_flags s) -> In k (akeys (b_cols s)) ->
-           In k (b_pk s) \/ exists c, In c (b_named s) /\ is_primary c = true /\ In k (k_cols c) }.
+           In k (b_pk s) \/ exists c, In c (b_named s) /\ is_primary c = true /\ In k (k_cols c);
+  inv_part : b_partial s = [];
+  inv_targs : b_targs s = [] }.
 
 Lemma has_dup_false_NoDup l : has_dup l = false -> NoDup l.
 Proof. induction l as [|x l IH]; simpl; [constructor|]. intros H. apply orb_false_iff in H. destruct H as [H1 H2].
@@ -165,18 +183,18 @@ Lemma aget_keys_none {V W} k (a:list (key * V)) (b:list (key * W)) : akeys a = a
 Proof. unfold akeys. revert b. induction a as [|[k1 v1] a IH]; destruct b as [|[k2 v2] b]; simpl; try congruence.
   intros E. inversion E; subst. destruct (name_eqb k k2); [congruence|]. apply IH; auto. Qed.
 
-Ltac psimpl := cbn [b_cols b_tr b_named b_pk b_idx b_newidx b_order b_existing b_flags tb_cols tb_pk tb_cons tb_idx].
+Ltac psimpl := cbn [b_cols b_tr b_named b_pk b_idx b_newidx b_order b_existing b_flags b_partial b_targs tb_cols tb_pk tb_cons tb_idx].
 
 Lemma step_refines o s s' T T' :
   in_class o = true -> Inv s T -> apply_batch_op o s = BOk s' -> edit o T = BOk T' -> Inv s' T'.
 Proof.
-  intros Hc [Icols Itrk Isrc Icons Ipk Iidx Inew Iord Iex Iwfc Iwfp Ind Ifl] Hm He.
+  intros Hc [Icols Itrk Isrc Icons Ipk Iidx Inew Iord Iex Iwfc Iwfp Ind Ifl Ipart Itargs] Hm He.
   destruct o as [k c b a|k|k a|c|n|x|n]; cbn [in_class] in Hc; try discriminate.
   - (* drop column *)
     cbn [apply_batch_op edit] in *. unfold has_key in He. rewrite <- Icols in He.
     destruct (aget k (b_cols s)) eqn:G; [|discriminate]. cbn in He.
     destruct (mem_name k (b_existing s)); [|discriminate].
-    destruct (existsb (fun x => mem_name k (x_cols x)) (tb_idx T)); [discriminate|].
+    destruct (existsb _ (tb_idx T)); [discriminate|].
     destruct (existsb (fun c => negb (is_primary c) && mem_name k (k_cols c)) (tb_cons T)) eqn:Ec; [discriminate|].
     inversion Hm; inversion He; subst s' T'; clear Hm He.
     constructor; psimpl; auto.
@@ -310,15 +328,15 @@ Section Refinement.
     nd = describe T /\ map (fun e => snd (fst e)) cm = akeys (tb_cols T) /\
     (forall e, In e cm -> fst (fst e) = cur_name (tb_cols T) (snd (fst e))).
   Proof.
-    intros [Icols Itrk Isrc Icons Ipk Iidx Inew Iord Iex Iwfc Iwfp Ind Ifl]. unfold finish, reorder. rewrite Iord.
+    intros [Icols Itrk Isrc Icons Ipk Iidx Inew Iord Iex Iwfc Iwfp Ind Ifl Ipart Itargs]. unfold finish, reorder. rewrite Iord, Ipart, Itargs.
     destruct (has_dup _); [discriminate|]. destruct (no_transfer _); [discriminate|].
     match goal with |- context [existsb ?g (flat_map x_cols (b_idx s))] => destruct (existsb g (flat_map x_cols (b_idx s))); [discriminate|] end.
-    destruct (negb (forallb _ (b_newidx s))); [discriminate|]. destruct (negb (forallb _ (b_idx s ++ b_newidx s))); [discriminate|].
+    destruct (negb (forallb _ (b_newidx s))); [discriminate|]. destruct (negb (forallb _ (b_idx s ++ b_newidx s))); [discriminate|]. destruct (negb (forallb _ (b_idx s ++ b_newidx s))); [discriminate|].
     intros E. inversion E; subst nd cm; clear E. split; [|rewrite <- Icols, <- Itrk; apply cm_own; auto].
     assert (Hkept : filter (fun c => sub_names (k_cols c) (akeys (b_tr s))) (b_named s) = b_named s).
     { apply filter_all. intros c Hc. apply sub_names_incl. rewrite Itrk, Icols.
       rewrite Forall_forall in Iwfc. apply Iwfc. rewrite <- Icons. auto. }
-    rewrite Hkept.
+    rewrite Hkept, app_nil_r.
     unfold describe. rewrite <- Icols, <- Icons, <- Ipk, Iidx. f_equal.
     rewrite Itrk. replace (sub_names (b_pk s) (akeys (b_cols s))) with true
       by (symmetry; apply sub_names_incl; rewrite Ipk, Icols; auto).
@@ -337,7 +355,7 @@ Section Refinement.
     nd = describe T' /\ map (fun e => snd (fst e)) cm = akeys (tb_cols T') /\
     (forall e, In e cm -> fst (fst e) = cur_name (tb_cols T') (snd (fst e))).
   Proof.
-    intros Hwf Hc He. unfold batch. destruct (apply_ops ops (init T)) as [s|] eqn:A; [|discriminate].
+    intros Hwf Hc He. unfold batch, batch_with. change (init_with [] []) with init. destruct (apply_ops ops (init T)) as [s|] eqn:A; [|discriminate].
     intros Hf. apply (finish_inv s T' nd cm); auto. apply (ops_refine ops (init T) T s T'); auto. apply init_inv; auto.
   Qed.
 End Refinement.
@@ -411,9 +429,9 @@ Definition w_uqc := nm [117;113;95;99]. Definition w_uqa := nm [117;113;95;97]. 
 (* t(id INTEGER PK, a INTEGER, b TEXT, c INTEGER, uq_c UNIQUE(c), ix_b(b)) with rows (1,1,'x',1), (2,NULL,'y',2) *)
 Definition w_tbl : tbl :=
   mkTbl [(w_id, mkCol w_id 0 false None); (w_a, mkCol w_a 0 true None); (w_b, mkCol w_b 2 true None); (w_c, mkCol w_c 0 true None)]
-        [w_id] [mkCon w_uqc KUnique [w_c]] [mkIndex w_ixb [w_b] false].
+        [w_id] [mkCon w_uqc KUnique [w_c]] [mkIndex w_ixb [w_b] false None].
 Definition w_rows : list row := [[VInt 1; VInt 1; VText [120]; VInt 1]; [VInt 2; VNull; VText [121]; VInt 2]].
-Definition w_in (ops:list batch_op) : input10 := mkIn10 w_tbl w_rows ops [] [] true.
+Definition w_in (ops:list batch_op) : input10 := mkIn10 w_tbl w_rows ops [] [] true [] [] true [] false.
 
 (* rename a -> a2, then create a UNIQUE constraint over ['a2']: accepted, and the constraint is silently left out *)
 Definition w_ops_byname := [OAlterColumn w_a (mkAlter (Some w_a2) None None None); OAddConstraint (mkCon w_uqa KUnique [w_a2])].
@@ -430,7 +448,7 @@ Proof.
   exists (w_in w_ops_readd). split; [eexists; eexists; vm_compute; reflexivity|]. split; [vm_compute; reflexivity|].
   intros H. cbn [C10_holds model10] in H.
   assert (E : model10 (w_in w_ops_readd) = OutOk (mkDesc [mkCol w_id 0 false None; mkCol w_a 0 true None; mkCol w_b 2 true None; mkCol w_c 2 true None]
-                [w_id] [mkCon w_uqc KUnique [w_c]] [mkIndex w_ixb [w_b] false])
+                [w_id] [mkCon w_uqc KUnique [w_c]] [mkIndex w_ixb [w_b] false None])
               [[VInt 1; VInt 1; VText [120]; VNull]; [VInt 2; VNull; VText [121]; VNull]] false) by (vm_compute; reflexivity).
   rewrite E in H. destruct H as [_ [_ [_ [H _]]]].
   specialize (H [VInt 1; VInt 1; VText [120]; VNull]). vm_compute in H. discriminate.
@@ -449,7 +467,7 @@ Proof.
   intros H. cbn [C10_holds] in H.
   assert (E : exists nd r, model10 (w_in w_ops_order) = OutOk nd r false /\ map c_name (n_cols nd) = [w_id; w_z; w_a; w_b])
     by (eexists; eexists; split; vm_compute; reflexivity).
-  destruct E as [nd [r [E1 E2]]]. rewrite E1 in H. destruct H as [_ [_ [_ [_ [_ [_ [_ H]]]]]]].
+  destruct E as [nd [r [E1 E2]]]. rewrite E1 in H. destruct H as [_ [_ [_ [_ [_ [_ [_ [_ [_ H]]]]]]]]].
   assert (ET : exists T', edit_all (j_ops (w_in w_ops_order)) (j_tbl (w_in w_ops_order)) = BOk T' /\ map c_name (n_cols (describe T')) = [w_id; w_a; w_b; w_z])
     by (eexists; split; vm_compute; reflexivity).
   destruct ET as [T' [ET1 ET2]]. clear E2 ET2. vm_compute in E1. inversion E1; subst nd r. vm_compute in ET1. inversion ET1; subst T'.
